@@ -26,6 +26,15 @@ static Circuit genExpandCircuit(Rng &rng) {
   o.utilHi = rng.chance(0.2) ? 1.1 : 0.6;
   if (rng.chance(0.15)) o.scale = (int)rng.pick(std::vector<int>{10, 1000});
   Circuit c = genCircuit(rng, o);
+  // turned movable cells (no polarity): the footprint is height x width
+  if (rng.chance(0.5))
+    for (int i = 0; i < c.nbCells(); ++i)
+      if (!c.cellIsFixed_[i] && c.cellRowPolarity_[i] == CellRowPolarity::ANY && rng.chance(0.4)) {
+        static const CellOrientation turnedO[4] = {CellOrientation::W, CellOrientation::E, CellOrientation::FW, CellOrientation::FE};
+        bool was = c.cellOrientation_[i] == CellOrientation::W || c.cellOrientation_[i] == CellOrientation::E || c.cellOrientation_[i] == CellOrientation::FW || c.cellOrientation_[i] == CellOrientation::FE;
+        if (!was) std::swap(c.cellWidth_[i], c.cellHeight_[i]);  // keep the placed footprint
+        c.cellOrientation_[i] = turnedO[rng.range(0, 3)];
+      }
   // a few zero-size movable cells
   if (rng.chance(0.3))
     for (int i = 0; i < c.nbCells(); ++i)
@@ -148,6 +157,12 @@ static void congestionCase(Rng &rng, CaseResult &r) {
   std::vector<Circuit::CongestionRegion> map;
   for (int k = 0; k < nreg; ++k) {
     int a = (int)rng.range(area.minX - 10, area.maxX + 5), b = (int)rng.range(area.minY - 10, area.maxY + 5);
+    if (rng.chance(0.4) && c.nbCells() > 0) {
+      // a region whose lower-left corner lies inside (or on the edge of) the placed footprint of some cell
+      int cell = (int)rng.range(0, c.nbCells() - 1);
+      a = c.cellX_[cell] + (int)rng.range(0, std::max(0, pW(c, cell)));
+      b = c.cellY_[cell] + (int)rng.range(0, std::max(0, pH(c, cell))) - (rng.chance(0.5) ? (int)rng.range(0, std::max(1, pH(c, cell))) : 0);
+    }
     Rectangle reg(a, a + (int)rng.range(1, std::max(2, area.width())), b, b + (int)rng.range(1, std::max(2, area.height())));
     float cong = rng.chance(0.3) ? (float)rng.unif(0.0, 1.0) : (rng.chance(0.1) ? 1.0f : (float)rng.unif(1.0, 3.0));
     map.emplace_back(reg, cong);
